@@ -173,13 +173,22 @@ type au struct {
 	pos  uint32 // 相对rtp body的位置
 }
 
+// parseAu
+//
+// @return nil if the au header section does not fit into b, or if one of several aus does not fit into b
+// (a single au may be larger than what follows the headers: it is the first fragment of a fragmented au)
 func parseAu(b []byte) (ret []au) {
-	// TODO(chef): [fix] 解析b时，没有判断长度有效性 202207
+	if len(b) < 2 {
+		return nil
+	}
 
 	// AU Header Section
 	var auHeadersLength uint32
 	auHeadersLength = uint32(b[0])<<8 + uint32(b[1])
 	auHeadersLength = (auHeadersLength + 7) / 8
+	if 2+auHeadersLength > uint32(len(b)) {
+		return nil
+	}
 
 	// TODO chef: 这里的2是写死的，正常是外部传入auSize和auIndex所占位数的和
 	const auHeaderSize = 2
@@ -203,6 +212,10 @@ func parseAu(b []byte) (ret []au) {
 
 		pauh += 2
 		pau += auSize
+	}
+
+	if nbAuHeaders > 1 && pau > uint32(len(b)) {
+		return nil
 	}
 
 	if (nbAuHeaders > 1 && pau != uint32(len(b))) ||
